@@ -171,6 +171,12 @@ def script_from_state(m, sc, v, trail=None):
         # the counterexample ends when the timer is armed: probe natively one MPP period (+0.5 s) later
         steps.append({'op': 'advance', 'ms': int(config['mpp_timeout_s']) * 1000 + 500})
         steps.append({'op': 'settle'})
+    if v.kind in LOCK_KINDS:
+        # is the payments lock still usable?  deliver an HTLC of an unrelated payment and see whether its lifecycle starts
+        invoices.append({'ident': 9, 'amount': '1000', 'sig_ok': True, 'self_hint': False})
+        steps.append({'op': 'htlc', 'k': 99, 'amount': '100000', 'cltv': '5000', 'cltv_rel': '4000', 'scid': False,
+                      'invoice': len(invoices) - 1, 'forward': '100000', 'total': '100000', 'hash': 'own'})
+        steps.append({'op': 'settle'})
     return {'config': config, 'invoices': invoices, 'setup': setup, 'steps': steps,
             'model': {k: str(x) for k, x in mdl.items() if '!' not in k}}
 
@@ -252,6 +258,19 @@ def j_answered_while_paying(v, script, nat):
             if gone:
                 return True, 'htlcs %s answered before pay returned' % gone
     return False, 'all htlcs still held when pay returned'
+
+LOCK_KINDS = ('blocking-send-under-lock', 'rpc-under-payments-lock', 'timer-under-payments-lock', 'self-deadlock', 'other-hash-delayed')
+
+def j_lock(v, script, nat):
+    import hashlib
+    probe_hash = hashlib.sha256(bytes([10] * 32)).hexdigest()
+    started = any(e.get('event') == 'rpc' and e.get('method') == 'listdatastore' and probe_hash in json.dumps(e.get('params'))
+                  for e in nat.get('trace', []))
+    answered = _resp(nat, 99) is not None
+    if not started and not answered:
+        return True, 'an htlc of an unrelated payment could not even start (payments lock is held): pending calls %s, waiting %s' % (
+            nat.get('pending_calls'), nat.get('still_waiting'))
+    return False, 'the unrelated payment made progress natively'
 
 def _htlc_ops(script):
     return dict((s['k'], s) for s in script['steps'] if s.get('op') == 'htlc')
@@ -494,6 +513,11 @@ def j_timeout(v, script, nat):
     return False, 'timeout behaviour as expected natively'
 
 JUDGES = {
+    'blocking-send-under-lock': j_lock,
+    'rpc-under-payments-lock': j_lock,
+    'timer-under-payments-lock': j_lock,
+    'self-deadlock': j_lock,
+    'other-hash-delayed': j_lock,
     'pay-for-incomplete-set': j_timeout,
     'wrong-timeout': j_timeout,
     'timer-not-started-after-store-answer': j_timeout,
